@@ -115,8 +115,9 @@ theorem allPairs_spec {f : Ev → Ev → Bool} {evs : List Ev} (h : allPairs f e
   simp only [allPairs, List.all_eq_true] at h
   exact h
 
-theorem pairOK_of_parts {a b : Ev} (h1 : freshPair a b = true) (h2 : overlapPair a b = true) : pairOK a b = true := by
-  cases a <;> cases b <;> simp_all [pairOK, freshPair, overlapPair]
+theorem pairOK_of_parts {a b : Ev} (h1 : freshPair a b = true) (h2 : copiedPair a b = true)
+    (h3 : sharedPair a b = true) : pairOK a b = true := by
+  cases a <;> cases b <;> simp_all [pairOK, freshPair, copiedPair, sharedPair]
 
 /-- the bounds inside a replaced part are declared bounds of the input -/
 theorem used_minPos (opts : Opts) (rs out : List (Option VExpr)) (hrun : cseTrees opts rs = .ok out)
@@ -161,10 +162,11 @@ theorem usedOK_of_parts (opts : Opts) (rs out : List (Option VExpr)) (hrun : cse
 theorem cseCheck_of_reduced_aux (opts : Opts) (rs out : List (Option VExpr)) (hrun : cseTrees opts rs = .ok out)
     (h : cseCheckReduced opts rs = true) : cseCheck opts rs = true := by
   simp only [cseCheckReduced, inputOK, Bool.and_eq_true] at h
-  obtain ⟨⟨⟨⟨hwf, hmin⟩, hfresh⟩, hroot⟩, hover⟩ := h
+  obtain ⟨⟨⟨⟨⟨hwf, hmin⟩, hfresh⟩, hroot⟩, hcop⟩, hsh⟩ := h
   simp only [rootDimsOK, List.all_eq_true] at hroot
   simp only [cseCheck, traceOK, Bool.and_eq_true, List.all_eq_true]
   exact ⟨hwf, fun ev hev => usedOK_of_parts opts rs out hrun hmin hev (hroot ev hev),
-    fun a ha b hb => pairOK_of_parts (allPairs_spec hfresh a ha b hb) (allPairs_spec hover a ha b hb)⟩
+    fun a ha b hb => pairOK_of_parts (allPairs_spec hfresh a ha b hb) (allPairs_spec hcop a ha b hb)
+      (allPairs_spec hsh a ha b hb)⟩
 
 end Einx.Solve.CseT
